@@ -42,17 +42,29 @@ func init() {
 	})
 }
 
-func runPBFDelta(c *Ctx) []Obligation {
+func runPBFDelta(c *Ctx) []Obligation { return runDeltaStates(c, "osm", []string{"last"}) }
+
+// runDeltaStates is the engine of PBF-DELTA, TILE-CURSOR and POSTING-DELTA: the delta states of one
+// package are the variables and fields whose names start with one of the given prefixes.
+func runDeltaStates(c *Ctx, rel string, prefixes []string) []Obligation {
 	var out []Obligation
-	p := c.Pkg("osm")
+	p := c.Pkg(rel)
 	if p == nil {
 		return out
 	}
 	info := p.TypesInfo
+	isStateName := func(n string) bool {
+		for _, pre := range prefixes {
+			if strings.HasPrefix(n, pre) {
+				return true
+			}
+		}
+		return false
+	}
 	stateObj := func(e ast.Expr) (types.Object, string) {
 		switch x := ast.Unparen(e).(type) {
 		case *ast.Ident:
-			if strings.HasPrefix(x.Name, "last") {
+			if isStateName(x.Name) {
 				if o := info.Uses[x]; o != nil {
 					return o, x.Name
 				}
@@ -61,7 +73,7 @@ func runPBFDelta(c *Ctx) []Obligation {
 				}
 			}
 		case *ast.SelectorExpr:
-			if strings.HasPrefix(x.Sel.Name, "last") {
+			if isStateName(x.Sel.Name) {
 				if s := info.Selections[x]; s != nil {
 					return s.Obj(), nodeText(c.Fset, x)
 				}
@@ -163,7 +175,7 @@ func runPBFDelta(c *Ctx) []Obligation {
 				}
 				sig := fn.Type().(*types.Signature)
 				for i, a := range x.Args {
-					if i < sig.Params().Len() && sig.Params().At(i).Name() == "last" {
+					if i < sig.Params().Len() && isStateName(sig.Params().At(i).Name()) {
 						if o, text := stateObj(a); o != nil {
 							s := get(o, text, x.Pos())
 							s.viaCall = true
@@ -564,4 +576,47 @@ func runPBFSentinel(c *Ctx) []Obligation {
 		}
 	}
 	return out
+}
+
+
+// TILE-CURSOR (C33) and POSTING-DELTA (C08) apply PBF-DELTA's obligations to the two other places
+// where b6 writes a sequence as differences from the previous element: the vector-tile geometry
+// encoder (cursorX/cursorY: every coordinate pair is written relative to the cursor, which must
+// then hold the absolute position just written) and the posting-list encoder (previous: every ID
+// is written as the difference from the previous ID of the block).
+func init() {
+	register(&Rule{
+		Name:  "TILE-CURSOR",
+		IR:    "ast",
+		Props: []string{"C33"},
+		Floor: 2,
+		Doc: "in package renderer the cursor the tile geometry encoder takes differences from (cursorX, cursorY) is updated, after every coordinate pair, with the absolute coordinate just written, " +
+			"and with nothing else except a restart at the feature's origin",
+		Run: func(c *Ctx) []Obligation {
+			var out []Obligation
+			for _, o := range runDeltaStates(c, "renderer", []string{"cursor"}) {
+				if !strings.HasSuffix(o.Key, ".restart") {
+					out = append(out, o)
+				}
+			}
+			return out
+		},
+	})
+	register(&Rule{
+		Name:  "POSTING-DELTA",
+		IR:    "ast",
+		Props: []string{"C08"},
+		Floor: 1,
+		Doc: "in the posting-list encoder of ingest/compact the base the ID differences are taken from (previous) is updated, after every ID, with the ID's absolute value, " +
+			"and with nothing else except a restart at 0",
+		Run: func(c *Ctx) []Obligation {
+			var out []Obligation
+			for _, o := range runDeltaStates(c, "ingest/compact", []string{"previous"}) {
+				if !strings.HasSuffix(o.Key, ".restart") {
+					out = append(out, o)
+				}
+			}
+			return out
+		},
+	})
 }
